@@ -9,7 +9,7 @@ from ..paths import walk_shallow, facts_at
 from ..guards import Evaluator
 from ..codec import extract, feasible_branches, consistent_branch
 from ..astutil import norm_nc
-from .common import where
+from .common import check_header_copy_first, where
 
 MOD = "npdu"
 
@@ -91,6 +91,7 @@ def r1(ctx):
     for n in ("encode", "decode"):
         if n not in c.methods:
             raise AnchorMissing("NPCI.%s" % n)
+    check_header_copy_first(ctx, c, c.methods["decode"], "NPCI.decode")
     enc = [b for b in extract(prog, c, c.methods["encode"], "encode") if consistent_branch(b)]
     dec = [b for b in extract(prog, c, c.methods["decode"], "decode") if consistent_branch(b)]
     ctx.count("encode_branches", len(enc))
